@@ -113,6 +113,11 @@ structure DistinctIds (cfg : Cfg) : Prop where
   p4 : cfg.mtPause ≠ cfg.mtSubscribe
   p5 : cfg.mtPause ≠ cfg.mtResume
 
+theorem info_never_acks (cfg : Cfg) (s : State) (m : Module) :
+    dataSends isAck (infoOf cfg s m).out = dataSends isAck s.out := by
+  unfold infoOf
+  rw [forward_never_acks _ _ _ (by simp [infoFrame, mgrFrame]), log_never_acks]
+
 /-- **Never acknowledged**: a data frame (any type id that is not one of the nine control types), MODULE_READY,
 CLIENT_SET_NAME and DISCONNECT produce no ACKNOWLEDGE on any connection. -/
 theorem never_acked (cfg : Cfg) (s : State) (u : Nat) (h : Hdr)
@@ -133,14 +138,12 @@ theorem never_acked (cfg : Cfg) (s : State) (u : Nat) (h : Hdr)
   · split
     · split
       · rw [remove_never_acks, log_never_acks]
-      · unfold sendInfo; split
-        · rw [log_never_acks]; rfl
-        · rw [forward_never_acks _ _ _ (by simp [infoFrame, mgrFrame]), log_never_acks]; rfl
+      · rw [info_never_acks, log_never_acks]; rfl
     · split
       · unfold sendInfo; split
         · rfl
-        · rw [forward_never_acks _ _ _ (by simp [infoFrame, mgrFrame])]; rfl
-      · rw [forward_never_acks _ _ _ (by simp)]
+        · rw [info_never_acks]; rfl
+      · rw [forward_never_acks _ _ _ (by simp), log_never_acks]
 
 /-- **SUBSCRIBE / RESUME / UNSUBSCRIBE / PAUSE are always acknowledged**, whether or not the request changed anything:
 processing such a frame *is* the table update followed by `send_ack` to the sender. -/
